@@ -107,9 +107,9 @@ def stepSample (s : Sess) (k : SamplerKind) (path : Option Nat) (completed : Boo
     let f := getFile s.files p
     let f := if saveCfg then { f with hasConfig := true, cfgSampler := some k } else f
     let s := if saveCfg then (match d with | some d => setTop s { d with savedConfig := true } | none => s) else s
-    let savedFlow := match topDflt s with | some d => d.savedFlow | none => false
-    -- the current proposal replaces the one in the file (once per context)
-    let writeFlow := s.memFlow.isSome && !savedFlow
+    -- the current proposal replaces the one in the file (every run; the `saved_flow` flag only suppresses the
+    -- second write after sampling)
+    let writeFlow := s.memFlow.isSome
     let f := if writeFlow then { f with flow := s.memFlow } else f
     let s := if writeFlow then (match topDflt s with | some d => setTop s { d with savedFlow := true } | none => s) else s
     -- checkpoints: only samplers that support it; the particles are (re)weighted under the in-memory proposal
